@@ -251,11 +251,12 @@ theorem step_thread {W : World} {co : Bool} {prog : List Op} {g : G} {k : Nat} {
       apply same
       obtain ⟨e, hf, hfn⟩ := G.cache _ _ hk
       rw [hcc] at hf
-      exact finishRes_inv G hl T.wit T.hist h0 _ _ (by rw [getLast_getD G, answer_of_find hs hf, hfn]) hlo (Nat.le_refl _)
+      exact finishRes_inv (t := { t with lo := cur g }) G hl T.wit T.hist h0 _ _
+        (by rw [getLast_getD G, answer_of_find hs hf, hfn]) (Nat.le_refl _) (Nat.le_refl _)
     | none =>
       simp only
       apply same
-      exact { lockI := by simp [PC.holds, hl], pinv := by simp only [PInv]; exact ⟨⟨c, rest, h0, hs⟩, hlo⟩,
+      exact { lockI := by simp [PC.holds, hl], pinv := by simp only [PInv]; exact ⟨⟨c, rest, h0, hs⟩, Nat.le_refl _⟩,
               wit := T.wit, hist := T.hist }
   | gen =>
     have hl := hfree (by simp [hpc, PC.holds])
@@ -263,7 +264,9 @@ theorem step_thread {W : World} {co : Bool} {prog : List Op} {g : G} {k : Nat} {
     simp only [stepTh, hpc]
     apply same
     exact { lockI := by simp [PC.holds, hl],
-            pinv := by simp only [PInv]; exact ⟨P.1, P.2, Nat.le_refl _, Or.inl trivial, fun h => absurd rfl h⟩,
+            pinv := by
+              simp only [PInv]
+              exact ⟨P.1, by split; exact P.2; exact Nat.le_refl _, Nat.le_refl _, Or.inl trivial, fun h => absurd rfl h⟩,
             wit := T.wit, hist := T.hist }
   | iter =>
     have hl := hfree (by simp [hpc, PC.holds])
@@ -575,7 +578,7 @@ theorem step_noReg {W : World} {co : Bool} {k : Nat} {g : G} {t : Th} (h1 : noRe
   | cget =>
     simp only [stepTh, hpc]
     split
-    · exact ⟨by first | rfl | trivial, (fr _ _ _ _ rfl).2, (fr _ _ _ _ rfl).1⟩
+    · exact ⟨by first | rfl | trivial, (fr _ { t with lo := cur g } _ _ rfl).2, (fr _ { t with lo := cur g } _ _ rfl).1⟩
     · exact ⟨by first | rfl | trivial, h1, by simp [PC.isW]⟩
   | gen => simp only [stepTh, hpc]; exact ⟨by first | rfl | trivial, h1, by simp [PC.isW]⟩
   | iter =>
